@@ -461,19 +461,11 @@ func c09SchedOps() []sop {
 
 // civilDigest: what the civil-side helpers and constructors answer around the end of February and in October of year y.
 func civilDigest(y int) string {
-	var b strings.Builder
-	for m := 1; m <= 12; m++ {
-		fmt.Fprintf(&b, "%d,", SolarUtil.GetDaysOfMonth(y, m))
-	}
-	fmt.Fprintf(&b, "|%d|%d|%v|", SolarUtil.GetDaysOfYear(y), SolarUtil.GetDaysInYear(y, 12, 31), SolarUtil.IsLeapYear(y))
-	for _, md := range [][2]int{{2, 28}, {2, 29}, {10, 4}, {10, 10}, {10, 31}, {12, 31}} {
-		b.WriteString(safeDigest(func() string {
-			s := calendar.NewSolarFromYmd(y, md[0], md[1])
-			return s.ToYmd() + ">" + s.NextDay(1).ToYmd() + ">" + s.NextDay(-1).ToYmd() + ">" + fmt.Sprint(s.GetWeek(), s.Subtract(calendar.NewSolarFromYmd(y, 1, 1)))
-		}) + ";")
-	}
-	b.WriteString(safeDigest(func() string { return lunarYmd(calendar.NewSolarFromYmd(y, 3, 1).GetLunar()) }))
-	return b.String()
+	// kept to a handful of calls: every call is a potential critical section of a changed library, and the number of
+	// schedules grows with the square of the lock points per thread
+	return fmt.Sprint(SolarUtil.GetDaysOfMonth(y, 2), SolarUtil.GetDaysOfMonth(y, 10), SolarUtil.GetDaysInYear(y, 12, 31)) + "|" +
+		safeDigest(func() string { return calendar.NewSolarFromYmd(y, 2, 28).NextDay(1).ToYmd() }) + "|" +
+		safeDigest(func() string { return calendar.NewSolarFromYmd(y, 10, 4).NextDay(1).ToYmd() })
 }
 
 type scenario struct {
@@ -573,7 +565,7 @@ func c09Sched(w *W) {
 		for _, bnd := range bounds {
 			first := true
 			var firstObs string
-			e := &Explorer{setup: setup, bodies: c09Bodies(ops, sh, sc.threads), stateKey: stateKey, reset: resetHidden, bound: bnd, prune: prune, MaxRuns: 200000}
+			e := &Explorer{setup: setup, bodies: c09Bodies(ops, sh, sc.threads), stateKey: stateKey, reset: resetHidden, bound: bnd, prune: prune, MaxRuns: map[bool]int{true: 200000, false: 20000}[w.Thorough()]}
 			e.check = func(x *Exec, schedule []int) {
 				w.R.Transitions++
 				w.R.Evals++
